@@ -1039,6 +1039,13 @@ def r1_11(F, R):
                 if not strip_generics(callee_name(t) or "").endswith(spec["call"]):
                     continue
                 r = t["dest"]["l"]
+                # the same Option/Result handed through presence-preserving adaptors (`get_command(..).cloned()`)
+                for _ in range(3):
+                    nxt_calls = [tt for _, tt in fn.calls() if strip_generics(callee_name(tt) or "").split("::")[-1] in ("cloned", "copied", "as_ref", "as_deref", "as_mut")
+                                 and tt.get("args") and (D.resolve_place(tt["args"][0]) or {}).get("l") == r]
+                    if len(nxt_calls) != 1:
+                        break
+                    r = nxt_calls[0]["dest"]["l"]
                 nxt = t.get("t")
                 if spec["arm"] in ("true", "false"):
                     # the bool result is switched on (possibly after a copy)
